@@ -614,3 +614,72 @@ M.contract(P_PROC + ':_Executor.apply',
            and calls(trace, 'full-execution')[0][0]['configuration_builder'].actor
            == self.default_act_phase_setup.actor_nav},
            raises_only=())
+
+
+# ============================================================================ the suite [conf] instruction, the main program
+
+from exactly_lib.cli import main_program
+from exactly_lib.processing.preprocessor import PreprocessorViaExternalProgram
+from exactly_lib.test_suite.instruction_set.sections.configuration import preprocessor as preprocessor_instruction
+
+M.contract('exactly_lib.test_suite.instruction_set.sections.configuration.preprocessor:Instruction.execute',
+           params=dict(self=Inst(preprocessor_instruction.Instruction, command_and_arguments=Any_),
+                       environment=CONF_ENV), inline=True,
+           old=lambda environment: environment.act_phase_setup,
+           ensures={'sets the preprocessor of the environment it is given, nothing else': lambda self, environment, old:
+           type(environment.preprocessor) is PreprocessorViaExternalProgram
+           and environment.preprocessor.external_program is self.command_and_arguments
+           and environment.act_phase_setup is old},
+           raises_only=())
+
+
+class SuiteDefinitionI(Interface):
+    attrs = {'configuration_section_parser': Any_, 'sandbox_root_dir_sdv': Any_}
+
+
+MAIN_PROGRAM = Inst(main_program.MainProgram, _test_suite_definition=Iface(SuiteDefinitionI),
+                    _test_case_definition=TC_DEFINITION, _mem_buff_size=Int,
+                    _default_test_case_handling_setup=HANDLING_SETUP)
+
+M.contract('exactly_lib.cli.main_program:_resolve_os_services', trusted=True, params=dict(), returns=Any_)
+M.trust('main_program._resolve_os_services returns the OS services of the platform (same for both modes)')
+
+
+class SuiteSettingsI(Interface):
+    attrs = {'handling_setup': HANDLING_SETUP, 'processing_reporter': Any_, 'suite_root_file_path': PATH}
+
+
+M.contract('exactly_lib.test_suite.processing:Processor.process_reporter', trusted=True,
+           params=dict(self=Any_, suite_root_file_path=Any_), returns=Any_, event='suite-process_reporter')
+M.trust('test_suite.processing.Processor.process_reporter (C16): here only the processor it is called on')
+
+
+def suite_processor(trace):
+    return [e[1]['self'] for e in trace if e[0] == 'suite-process_reporter'][0]
+
+
+M.contract('exactly_lib.cli.main_program:MainProgram.execute_test_suite',
+           params=dict(self=MAIN_PROGRAM, settings=Iface(SuiteSettingsI)),
+           ensures={'suites are read with the parsers, parsing setup and default setup the standalone mode uses': lambda self, settings, trace:
+           suite_processor(trace)._suite_hierarchy_reader._environment.configuration_section_parser
+           is self._test_suite_definition.configuration_section_parser
+           and suite_processor(trace)._suite_hierarchy_reader._environment.test_case_parsing_setup
+           is self._test_case_definition.parsing_setup
+           and suite_processor(trace)._suite_hierarchy_reader._environment.default_test_case_handling_setup
+           is settings.handling_setup
+           and suite_processor(trace)._default_case_configuration.test_case_definition is self._test_case_definition
+           and suite_processor(trace)._default_case_configuration.mem_buff_size == self._mem_buff_size
+           and suite_processor(trace)._default_case_configuration.is_keep_sandbox is False
+           and suite_processor(trace)._test_case_processor_constructor
+           is processors.new_processor_that_should_not_pollute_current_process},
+           raises_only=())
+
+M.contract('exactly_lib.cli.main_program:MainProgram.execute_test_case',
+           params=dict(self=MAIN_PROGRAM, settings=Any_),
+           ensures={'the standalone processor gets the same case definition, suite [conf] parser and buffer size': lambda self, settings, result:
+           result._processor._test_case_definition is self._test_case_definition
+           and result._processor._suite_configuration_section_parser
+           is self._test_suite_definition.configuration_section_parser
+           and result._processor._mem_buff_size == self._mem_buff_size
+           and result._settings is settings},
+           raises_only=())
